@@ -24,7 +24,7 @@ func (core *JApiCore) validateCatalog() *jerr.JApiError {
 		return je
 	}
 
-	return nil
+	return core.validateSchemas()
 }
 
 func (core *JApiCore) validateInfo() *jerr.JApiError {
